@@ -4,7 +4,7 @@ from __future__ import annotations
 
 import ast
 
-from hsa.core import AnalysisError, Repo, Report, body_walk, call_name, dotted, kwarg, last_attr, src, stmt_of
+from hsa.core import AnalysisError, Repo, Report, body_walk, call_name, dotted, find_assign, kwarg, last_attr, src, stmt_of
 from hsa.flow import Flow, function_exits, guard_text, guards_at, normal_exit_states
 from hsa.fold import UNKNOWN, Folder, class_consts, fold_in
 from hsa.rules.common import guard_set, if_chain, method_calls
@@ -139,6 +139,18 @@ def _result_of(call: ast.Call):
 
 def r05_3_failure_mapping(repo: Repo, rep: Report):
     rep.rule("R05.3", "SolverOutput(unsat) only from an 'unsat' first line or an unsat-core hit; handlers/default map to err/unknown")
+    # what is matched against 'sat' / 'unsat' / 'unknown' is the whole first line of the solver's output - not a word
+    # found somewhere in it (an `(error "... unsat core is not available")` reply would then read as unsat)
+    ms, fr = repo.fn("solve.SolverOutput.from_result")
+    subj = [mt.subject for mt in body_walk(fr) if isinstance(mt, ast.Match)]
+    fl = [src(v) for v in find_assign(fr, "first_line")]
+    nl = [src(v) for v in find_assign(fr, "newline_idx")]
+    forms = (
+        (fl == ["stdout[:newline_idx] if newline_idx != -1 else stdout"] and nl == ["stdout.find('\\n')"])
+        or fl in (["stdout.partition('\\n')[0]"], ["stdout.split('\\n', 1)[0]"], ["stdout.split('\\n')[0]"])
+    )
+    ok = len(subj) == 1 and src(subj[0]) == "first_line" and forms
+    rep.check("R05.3", ok, ms, fr, f"from_result matches on {[src(x) for x in subj]}; first_line = {fl}", "the verdict word must be the complete first line of stdout")
     n = 0
     for modname in ("solve", "__main__"):
         m = repo.mod(modname)
@@ -342,6 +354,27 @@ def r05_5_exit_code(repo: Repo, rep: Report):
         rep.check("R05.5", ok, mm, h, "run_contract: setUp failure -> return []  (all found tests count as failed)", "setUp failure must yield no passing results")
 
 
+def r05_7_output_recorded_first(repo: Repo, rep: Report):
+    rep.rule("R05.7", "the solver callback records the output unconditionally, before anything that can fail (exceptions in done-callbacks are swallowed)")
+    m, fn = repo.fn("__main__.CounterexampleHandler._solve_end_to_end_callback")
+    apps = [c for c in body_walk(fn) if isinstance(c, ast.Call) and src(c.func).endswith("solver_outputs.append")]
+    if len(apps) != 1:
+        raise AnalysisError("_solve_end_to_end_callback: solver_outputs.append not found exactly once")
+    st = stmt_of(m, apps[0])
+    top = st in fn.body and not guard_set(m, apps[0])
+    rep.check("R05.7", top and [src(a) for a in apps[0].args] == ["solver_output"], m, apps[0], f"{src(apps[0])} unconditional at the top level of the callback", "an output that is recorded only on some paths (or after an early return) is missing from the verdict")
+    if top:
+        k = fn.body.index(st)
+        before = []
+        for x in fn.body[:k]:
+            if isinstance(x, ast.Expr) and isinstance(x.value, ast.Constant):
+                continue  # docstring
+            ok_stmt = isinstance(x, (ast.Assign, ast.AnnAssign)) and not any(isinstance(c, ast.Call) and src(c.func) != "self._get_solver_output" for c in ast.walk(x))
+            if not ok_stmt:
+                before.append(x)
+        rep.check("R05.7", not before, m, before[0] if before else st, f"before the append only bindings and _get_solver_output(..): {[src(x)[:40] for x in before]}", "something that can raise (file bookkeeping, logging of the failed query) runs before the output is recorded: if it raises, the exception is swallowed by the future's callback machinery and a crashed / timed-out solver output never reaches the verdict (PASS)")
+
+
 def r05_6_shared(repo: Repo, rep: Report):
     """stuck-path confirmation (keep unless unsat) and soundness of the solver-free `unsat` from the core cache"""
     from hsa.rules.c16 import r16_1_core_recording, r16_2_subset_test
@@ -369,6 +402,9 @@ def r05_6_shared(repo: Repo, rep: Report):
     from hsa.rules.c03 import r03_1_classification
 
     r03_1_classification(repo, rep)
+    from hsa.rules.c10 import r10_1_cut_report_pairing
+
+    r10_1_cut_report_pairing(repo, rep)  # includes what `stuck` means (CallContext.is_stuck)
     # a solver call that timed out must surface as `unknown` (-> TIMEOUT), whatever it printed before it was killed
     from hsa.rules.c17 import r17_1_exactly_once, r17_2_timeout_unknown
 
@@ -380,4 +416,4 @@ def r05_6_shared(repo: Repo, rep: Report):
     r04_6_results_during_shutdown(repo, rep)
 
 
-RULES = [r05_1_pass_dominance, r05_2_precedence, r05_3_failure_mapping, r05_4_order_independence, r05_5_exit_code, r05_6_shared]
+RULES = [r05_1_pass_dominance, r05_2_precedence, r05_3_failure_mapping, r05_4_order_independence, r05_5_exit_code, r05_6_shared, r05_7_output_recorded_first]
